@@ -65,6 +65,11 @@ THEOREMS = [
     'C16.gen_cs_defaults_eq_model', 'C16.gen_pin_plane_crystal_to_cartesian',
     'C16.gen_pin_vector_crystal_to_cartesian', 'C16.gen_pin_all_indices', 'C16.gen_pin_fromstring_rest',
     'C16.gen_pin_Box_vector_crystal_to_cartesian', 'C16.gen_pin_Box_plane_crystal_to_cartesian',
+    # np.unique(axis=0) as modelled: strictly increasing rows
+    'C16.lexLt_irrefl', 'C16.lexLt_trans', 'C16.lexLt_total', 'C16.insertUniq_sorted', 'C16.sortUniq_sorted', 'C16.sortUniq_nodup',
+    'C16.allIndices_reduce_sorted',
+    # family clause and the length unit
+    'C16.isclose_scale_atol0', 'C16.identify_scale_atol0',
     # end to end over the generated definitions; scale invariance
     'C16.normal_nonzero', 'C16.IsNormAt.pos', 'C16.IsNormAt.smul', 'C16.gen_normal_perp_iff_zone',
     'C16.gen_normal_unit_along_reciprocal', 'C16.normal_scale', 'C16.gen_normal_scale_invariant',
@@ -756,11 +761,16 @@ RULE = ('CELLS: every crystal family from its Box constructor (generic parameter
         'run on a cell with a non-symmetric reciprocal matrix (262145 and 300001 when thorough); the vectorised functions at '
         'one of 262145 / 300001 / 500001 / 524289 / 1000001 and at 1048577 rows in every run with entries to 2^40 (2^31 - 1 in '
         'int32); all_indices at 53, one of 37 / 41 / 43 / 47 and one bound in 21..36 per run (59 ... 101 when thorough) with '
-        'a vectorised oracle (coprime rows, every direction once, lexicographic order); distinct = distinct canonical '
+        'a vectorised oracle (coprime rows, every direction once, lexicographic order); SCALES: half of the cells of every '
+        'generator (search and correspondence) have all lattice parameters and the origin multiplied by an exact power of two '
+        '(2^-40..2^40) or of ten (1e-12..1e+12), and every family + triclinic + dyadic cell goes through ALL 48 scales per run '
+        '(exact unit normal per plane, normal at scale s = normal at scale 1, vectors scale along, family identified; family '
+        'clause asked with atol scaled like the cell below 1e-6); distinct = distinct canonical '
         'driver line; non-trivial = not the zero index vector / not an error case')
 ASSUMPTIONS = [
-    'the final division by numpy.linalg.norm is a positive scalar (the model returns the unnormalised exact normal; '
-    'the harness normalises it in float)',
+    'numpy.linalg.norm of the un-normalised normal n is the non-negative root of n.n (IsNormAt: asked of that one vector '
+    'only; that n is never zero, so the root is positive, is proved: normal_nonzero); the model returns the unnormalised exact '
+    'normal, the harness normalises it in float',
     'IEEE double rounding of the implementation is bounded by 16*2^-53*(|a||b| row-norm bound)/|a x b| on plane '
     'normals, 1e-14 relative elsewhere; dyadic cells are compared with the same bound (arithmetic exact there)',
     'numpy gcd/lcm/sign/dot/cross/apply_along_axis, str.index/split and np.fromstring(sep=" ") behave as documented',
@@ -774,7 +784,10 @@ ASSUMPTIONS = [
     'the model object is told the state the real object reports after each setter (vects, origin, a..gamma); that the '
     'object reports what it was set to is checked separately (object:readback, entries the setter cleans to zero exempt)',
 ]
-TRUSTED = ['numpy', 'fractions.Fraction oracle in search()']
+TRUSTED = ['numpy', 'fractions.Fraction oracle in search()',
+           'the two translators of harness/props/c16.py (ast -> Generated/MillerTables.lean, Generated/MillerSource.lean): they '
+           'refuse (TranslationError) what they do not recognise; statement pins are ast.unparse text with docstrings and '
+           'exception messages dropped']
 
 U = 2.0 ** -53
 ATOL_GUARD = 1e-8       # numpy.allclose default atol (the h+k+i guard)
@@ -4560,11 +4573,21 @@ MANIFEST = {
             'satisfy the zone law exactly (the integer quotients lose nothing); the four-index form of a plane with h, k >= 0, '
             'h+k > 0 has a negative third index (it cannot stay in an unsigned dtype); the first row of an array of planes gets its '
             'own result and decides nothing about the others, the same planes in any order give the same normals permuted; every '
-            'row of all_indices(m, reduce) is coprime for EVERY bound m. The model is tied to the code by an exhaustive differential run (all index triples to the bound, '
+            'row of all_indices(m, reduce) is coprime for EVERY bound m and the rows come in strictly increasing lexicographic order '
+            '(np.unique as modelled: sorted, nothing twice). SOURCE TIE: the column formulas and guards of the four 3<->4 functions, '
+            'the seven-branch tree of plane_cryst_2_cart (conditions, lcm / sign arguments, quotient indices), its cross product and '
+            'final division, reduce_indices, the bracket order of fromstring, the 14 family predicates, both identifyfamily chains and '
+            'the default tolerances are regenerated from miller.py / Box.py / crystalsystem.py on every run '
+            '(Generated/MillerSource.lean) and proved equal to the model (37 gen_ obligations, statement pins for the numpy '
+            'sequencing); end to end over the generated definitions: the returned normal is perpendicular to the returned [uvw] '
+            'vector iff hu+kv+lw = 0, is the unit vector along the reciprocal-lattice vector for det > 0, and does not depend on the '
+            'unit the cell lengths are written in (scale invariance, every t > 0); with atol = 0 the family predicates do not see '
+            'the length unit either. The model is tied to the code by an exhaustive differential run (all index triples to the bound, '
             'cells of every family in four orientations with non-zero origins, one model object and one real object taken '
             'through the same setter histories, strings, boundary parameter sets).',
     'note': 'Trusted: Lean kernel + propext/Classical.choice/Quot.sound; the table translator (harness/props/c16.py); numpy '
             'primitives; norm (sqrt) and the float rounding bound of the cross product are assumptions; Python float() '
             'numerals modelled for the integer grammar only; Box.a..gamma (sqrt/arccos) are inputs of the family model.',
-    'technique': 'Lean 4 theorems over a hand-written model + translator-generated tables + differential correspondence',
+    'technique': 'Lean 4 theorems over a hand-written model proved equal to translator-generated definitions (tables, formulas, '
+                 'branch trees, predicates) + statement pins + differential correspondence',
 }
